@@ -358,9 +358,30 @@ impl fmt::Display for IterableKind {
     fn fmt(&self, f: &mut fmt::Formatter<'_>) -> fmt::Result {
         //TODO should i turn this into a self.to_primitive_set()  and then iterate and stringify?
         let s = match self {
-            IterableKind::Numbers(v) => format!("{:?}", v),
+            //`{:?}` would switch to exponent notation (`1e-7`), which the grammar does not read
+            IterableKind::Numbers(v) => format!(
+                "[{}]",
+                v.iter()
+                    .map(|n| {
+                        let s = n.to_string();
+                        if s.contains('.') || !n.is_finite() {
+                            s
+                        } else {
+                            format!("{}.0", s)
+                        }
+                    })
+                    .collect::<Vec<_>>()
+                    .join(", ")
+            ),
             IterableKind::Integers(v) => format!("{:?}", v),
-            IterableKind::Anys(v) => format!("{:?}", v),
+            //every element as it is written in a source file, not as its debug form `Number(1.5)`
+            IterableKind::Anys(v) => format!(
+                "[{}]",
+                v.iter()
+                    .map(|p| p.to_string())
+                    .collect::<Vec<_>>()
+                    .join(", ")
+            ),
             IterableKind::PositiveIntegers(v) => format!("{:?}", v),
             //strings keep their escapes as written, `{:?}` would escape them a second time
             IterableKind::Strings(v) => format!(
